@@ -125,7 +125,7 @@ PROPS = {
              "truncations, oversize, lying stream frames) to a real node before and after the handshake, on a datagram link and on receptor's stream framing; the executor process is "
              "crash-contained, and after the hostile session ends the node must answer Status(), serve its old peer, accept a fresh peer and route between them.",
         note="Trusted: the in-memory link / chunking stream of the harness. Liveness is judged after the hostile session has ended (while it is connected a lying peer may legitimately attract "
-             "traffic); the real TCP/UDP/websocket listeners are covered by the thorough-tier transports when present.",
+             "traffic). Transports: in-memory datagram link, receptor's stream framing over a chunking pipe, and the real TCP / UDP / websocket listeners on loopback.",
         technique="grammar-based property testing (rapid) with process-level crash containment; robustness oracle = liveness + routing probes through the node",
         assumptions=["forged updates about the well-behaved nodes never carry their real start epoch (24 random bits + time: not guessable by the generator)"],
         parts=[
